@@ -34,7 +34,7 @@ GROUPS = {
     "handlerplugins": (["plugin/executable/redirect/redirect.go", "pkg/hosts/hosts.go", "plugin/executable/dual_selector/dual_selector.go"], ["C03", "C12"]),
     "upstream": (["pkg/upstream/upstream.go", "pkg/upstream/utils.go", "pkg/upstream/bootstrap/bootstrap.go"], ["C18", "C17", "C01"]),
     "transport": ([T + "conn_traditional.go", T + "reuse.go", T + "pipeline.go", T + "conn_lazy_dial.go", T + "utils.go"],
-                  ["C02", "C09", "C08", "C07", "C01", "C16"]),
+                  ["C09", "C08", "C07", "C01", "C16", "C02"]),
     "doh_doq": ([T + "conn_quic.go", "pkg/upstream/doh/upstream.go"], ["C01"]),
 }
 
@@ -94,9 +94,11 @@ def worker(wid, jobs, group_checks):
                             rec["signature"] = sig[0].split()[0][len("signature="):] if sig else ""
                             break
                         if rc != 0:
+                            # this check could not decide (hang turned into a timeout, worker death): try the next
+                            # one; the mutant counts as inconclusive only if no check kills it
                             rec["status"] = "inconclusive"
-                            rec["by"] = cid
-                            break
+                            rec.setdefault("by", cid)
+                            continue
                     if rec["status"] == "survived":
                         rc, out = sh(["go", "test", "-vet=off", "-count=1", "./" + os.path.dirname(f) + "/"], cwd=wt, timeout=600)
                         rec["repo_tests"] = "pass" if rc == 0 else "fail"
